@@ -9,7 +9,7 @@ from ..draw import composite
 RULE = ("files: members of the conforming/violating families, stacked variants (2-4 operators on one file, several diagnostics per line), "
         "files with lexical diagnostics carrying several highlights, bad lexemes and non-ASCII characters, 1-3 files per report; oracle: "
         "every diagnostic has a catalogue code with exactly the catalogue text, level Error|Notice, >=1 highlight, 1 <= line <= number of "
-        "lines, column >= 1; printed positions ascend; the JSON report parses and lists the same files, verdicts and diagnostics in the same "
+        "lines, 1 <= column <= visual width of that line + 1; printed positions ascend; the JSON report parses and lists the same files, verdicts and diagnostics in the same "
         "order as the humanized one (in-process formatters, and through the CLI for a sample); comparator laws (irreflexive, asymmetric, "
         "transitive, consistent with the printed position) over all pairs and triples of a small Error domain; non-trivial = file with >=2 "
         "diagnostics of which >=2 share a line; distinct by SHA-1 of the text")
@@ -23,6 +23,17 @@ def nlines(text):
     if not text:
         return 0
     return text.count("\n") + (0 if text.endswith("\n") else 1)
+
+
+def line_width(text, lineno):
+    """visual width (tab stops every 4 columns) of the physical line `lineno` (1-based)"""
+    lines = text.split("\n")
+    if not 1 <= lineno <= len(lines):
+        return 0
+    col = 0
+    for ch in lines[lineno - 1]:
+        col = (col // 4 + 1) * 4 if ch == "\t" else col + 1
+    return col
 
 
 @composite
@@ -103,6 +114,8 @@ def check_files(camp, files, cli=False):
             h = e.highlights[0]
             if not (isinstance(h.lineno, int) and 1 <= h.lineno <= max(n, 1)) or not (isinstance(h.column, int) and h.column >= 1):
                 camp.fail("C08|position-out-of-file|%s" % e.name, "%s at (%s, %s) in a file of %d lines" % (e.name, h.lineno, h.column, n), case)
+            elif h.column > line_width(text, h.lineno) + 1:
+                camp.fail("C08|position-beyond-line|%s" % e.name, "%s at (%s, %s) but that line is %d columns wide" % (e.name, h.lineno, h.column, line_width(text, h.lineno)), case)
             pos = (h.lineno, h.column)
             if prev is not None and pos < prev[0]:
                 multi = len(e.highlights) > 1 or prev[2] > 1
